@@ -345,7 +345,8 @@ fn emitted_names_family(rep: &mut Report) {
         let src = if *variant {
             format!("#[typeshare]\n#[serde(rename_all = \"{rule}\")]\npub enum Subject {{ {sp}, Zz9 }}\n")
         } else {
-            format!("#[typeshare]\n#[serde(rename_all = \"{rule}\")]\npub struct Subject {{ pub {sp}: {} }}\n", if *date { "DateTime" } else { "u32" })
+            // (a plain one-word member after the subject: whether a key binding is written must not hang on the last member)
+            format!("#[typeshare]\n#[serde(rename_all = \"{rule}\")]\npub struct Subject {{ pub {sp}: {}, pub zz: bool }}\n", if *date { "DateTime" } else { "u32" })
         };
         let mut cfg = if *prefixed { Cfg::prefixed() } else { Cfg::plain() };
         if *date {
